@@ -19,7 +19,9 @@ TraceMFD == IF "mfd" \in DOMAIN Meta THEN Meta.mfd ELSE 1000
 TraceDev == Range(Meta.dev)
 
 VARIABLE l
-tvars == <<vars, l>>
+VARIABLE deep          \* history: <<client, group>> pairs that were once more than Retention commits past their fork point
+tvars == <<vars, l, deep>>
+TraceEverTooDeep(c, g) == <<c, g>> \in deep
 
 R == Rec[l]
 
@@ -205,11 +207,22 @@ TQuiesce ==
     /\ Quiesce
     /\ \A i \in DOMAIN R.posts : PostAll(R.posts[i].c, R.posts[i].g, R.posts[i].post)
 
-TraceInit == Init /\ l = 2
+TraceInit == Init /\ l = 2 /\ deep = {}
 
 TraceNext ==
     /\ l <= Len(Rec)
     /\ l' = l + 1
+    \* history of over-deep forks, one step behind (it is only consulted at Quiesce lines): recomputed when the previous line may
+    \* have moved a chain or published a commit
+    /\ deep' = IF R.op = "Reset" THEN {}
+               ELSE IF l > 2 /\ Rec[l - 1].op \in {"Commit", "Merge", "Raw", "Welcome", "Deliver"}
+                       /\ (Rec[l - 1].op = "Deliver" => Rec[l - 1].res \in {"Commit", "Proposal"})
+                    THEN deep \cup UNION {
+                           IF Created(g) /\ \E c \in Clients : Len(cl[c][g].chain) > Retention
+                           THEN LET W == Winner(g) IN
+                                {<<c, g>> : c \in {x \in Clients : Len(cl[x][g].chain) - CommonPrefixLen(cl[x][g].chain, W, 0) > Retention}}
+                           ELSE {} : g \in Groups}
+                    ELSE deep
     /\ \/ TMeta \/ TCreate \/ TCommit \/ TMerge \/ TClear \/ TSend \/ TLeave \/ TDeliver \/ TQuiesce \/ TWelcome \/ TRestart \/ TSnapshot \/ TJunk \/ TForge \/ TRaw \/ TDropKP
 
 ObsSame(c) == ObsOf(c)' = ObsOf(c)
